@@ -571,6 +571,61 @@ def run(tier, seed):
     rep.notes["model_mismatches"] = mism
     rep.notes["histories_vs_AsyncExitStack"] = len(hist)
     rep.notes["stacks_vs_nested_with"] = len(stacks)
+    # exits and callbacks that are value-like objects -- distinct, but comparing and hashing equal to each other -- or that
+    # are unhashable: each registered one runs exactly once, in reverse order, like the nested statements
+    class _Handler:
+        def __init__(self, tag, log):
+            self.tag, self.log = tag, log
+
+        def __eq__(self, other):
+            return isinstance(other, _Handler)
+
+        def __hash__(self):
+            return 5
+
+    class _SyncExit(_Handler):
+        def __call__(self, et, ev, tb):
+            self.log.append(("exit", self.tag))
+            return False
+
+    class _SyncCallback(_Handler):
+        def __call__(self, *args):
+            self.log.append(("callback", self.tag, args))
+
+    class _UnhashableCallback(_SyncCallback):
+        __hash__ = None
+
+    class _AsyncExit(_Handler):
+        async def __call__(self, et, ev, tb):
+            self.log.append(("aexit", self.tag))
+            return False
+    for nstacks in (1, 2):
+        log = []
+
+        async def equal_handlers():
+            for s_ in range(nstacks):
+                async with a.ExitStack() as st:
+                    st.push(_SyncExit("e%d-1" % s_, log))
+                    st.callback(_SyncCallback("c%d-1" % s_, log), s_)
+                    st.push(_SyncExit("e%d-2" % s_, log))
+                    st.callback(_UnhashableCallback("u%d" % s_, log), s_)
+                    st.push(_AsyncExit("a%d-1" % s_, log))
+                    st.callback(_SyncCallback("c%d-2" % s_, log), s_)
+                    st.push(_AsyncExit("a%d-2" % s_, log))
+        try:
+            from gencalc import drive as _drive_eq
+            _drive_eq(equal_handlers())
+            want = []
+            for s_ in range(nstacks):
+                want += [("aexit", "a%d-2" % s_), ("callback", "c%d-2" % s_, (s_,)), ("aexit", "a%d-1" % s_), ("callback", "u%d" % s_, (s_,)), ("exit", "e%d-2" % s_),
+                         ("callback", "c%d-1" % s_, (s_,)), ("exit", "e%d-1" % s_)]
+            why = None if log == want else "exits ran as %r, expected %r" % (log, want)
+        except BaseException as e:  # noqa
+            why = "failed with %r after %r" % (e, log)
+        rep.count(("equal-handlers", nstacks), True)
+        if why:
+            fails += 1
+            rep.violation("exitstack:equal-handlers", {"stacks": nstacks, "why": "distinct exit handlers / callbacks that compare and hash equal (and an unhashable one): " + why})
     import kwprobe
     kwprobe.probe(rep, "callback", "exitstack:kwargs")
     cancellation_stage(rep, rng, 60 if tier == "quick" else 2000)
